@@ -61,6 +61,10 @@ impl Variables {
         self.insert(Self::param_to_name(param_name), value);
     }
 
+    pub fn get_param(&self, param_name: &Parameter) -> Option<&Variant> {
+        self.get_by_name(&Self::param_to_name(param_name.clone()))
+    }
+
     fn param_to_name(param_name: Parameter) -> Name {
         let (bare_name, param_type) = param_name.into();
         match param_type {
